@@ -375,6 +375,7 @@ func (g *e2eGen) headers(p *callPlan) {
 	}
 	if g.rc.Prop == "C09" && len(p.respHdr) > 0 && tp.Intn("onward", 4) == 1 {
 		p.onward = true
+		p.onwardWrapped = tp.Intn("onward", 2) == 1
 		g.rc.Fault("handler-makes-an-onward-call-with-its-context")
 	}
 	if k := tp.Intn("rawbytes", 6); g.rc.Prop == "C09" && (k == 1 || k == 2) {
